@@ -154,7 +154,8 @@ def model_value(model, term):
     if z3.is_false(v):
         return False
     if z3.is_string_value(v):
-        return v.as_string()
+        from .values import z3_str_value
+        return z3_str_value(v)
     if z3.is_rational_value(v):
         return [v.numerator_as_long(), v.denominator_as_long()]
     if z3.is_algebraic_value(v):
